@@ -55,6 +55,11 @@ func runC04(c *fw.Case) {
 	if base.Stop < uint64(base.Start)+4 && uint64(base.Start)+4 <= s.H {
 		base.Stop = uint64(base.Start) + 4 + uint64(c.R.Intn(int(s.H-uint64(base.Start)-3)))
 	}
+	if c.Index%8 == 3 || c.Index%8 == 5 { // final_blocks_only requests, half of them in development mode (linear from the start block)
+		base.FinalBlocksOnly = true
+		base.Final = s.cl.Head
+		base.Prod = c.Index%8 == 3
+	}
 	if pl, err := s.cl.PlanFor(base); err == nil && pl.KnownHangShape() {
 		c.Count("requests_with_known_hang_shape_skipped", 1)
 		return
@@ -62,6 +67,12 @@ func runC04(c *fw.Case) {
 	res := s.cl.Run(base)
 	extra := map[string]any{"base_request": base, "jobs": res.Jobs}
 	c.Count("base_requests", 1)
+	if base.FinalBlocksOnly {
+		c.Count("base_requests_final_blocks_only", 1)
+	}
+	if base.Preload {
+		c.Count("base_requests_with_walker_preload", 1)
+	}
 	if res.Stuck {
 		c.Violation("C04/liveness/request-stuck-no-job-in-flight", "the base request made no progress for 45 s with no tier2 job in flight", s.witness(extra))
 		return
